@@ -28,7 +28,7 @@ from mirse.model_hash import oracle_of
 
 PROP = 'C17'
 
-OUTCOMES = ['ok', 'signature', 'sig-short', 'sig-long', 'sig-empty', 'expired', 'scope_region', 'arity', 'date', 'host', 'path', 'provider-sig', 'provider-foreign']
+OUTCOMES = ['ok', 'signature', 'sig-anycase', 'sig-short', 'sig-long', 'sig-empty', 'expired', 'scope_region', 'arity', 'date', 'host', 'path', 'provider-sig', 'provider-foreign']
 
 
 def shapes(tier, seed):
@@ -40,6 +40,26 @@ def shapes(tier, seed):
     out.append(('fmt', 'keys'))
     out.append(('fmt', 'structs'))
     return out
+
+
+def symbolic_signature(D, carrier, ctx):
+    """Replace the presented signature by 64 symbolic hex digits of either letter case (public input)."""
+    good = D.good_sig
+    sig = []
+    for i in range(64):
+        b = ctx.fresh_bv('PRESENTED_sig%d' % i, 8)
+        ctx.assume(z3.Or(z3.And(z3.UGE(b, 0x30), z3.ULE(b, 0x39)), z3.And(z3.UGE(b, 0x61), z3.ULE(b, 0x66)), z3.And(z3.UGE(b, 0x41), z3.ULE(b, 0x46))))
+        sig.append(Int('u8', b))
+
+    def swap(es):
+        b = bytes(e.v for e in es)
+        i = b.find(good.encode())
+        return list(es[:i]) + sig + list(es[i + 64:]) if i >= 0 else es
+    if carrier == 'header':
+        D.req.headers = [(n, swap(v) if n == 'authorization' else v) for n, v in D.req.headers]
+    else:
+        D.req.query = swap(D.req.query)
+    return sig
 
 
 def retouch_signature(D, carrier, oc):
@@ -104,6 +124,8 @@ def run_shape(prog, shape, tier, seed, res):
             D = Defective(m, ctx, carrier, flags, key=bytes(32))
             if oc in ('sig-short', 'sig-long', 'sig-empty'):
                 retouch_signature(D, carrier, oc)
+            presented = symbolic_signature(D, carrier, ctx) if oc == 'sig-anycase' else None
+            n_before = len(oracle_of(m).calls)
             # the provider hands out the *symbolic* key: a correct signature cannot be precomputed, so "ok" uses the concrete zero key
             if oc == 'ok':
                 pkey = conc_bytes(bytes(32))
@@ -128,6 +150,11 @@ def run_shape(prog, shape, tier, seed, res):
                 observables.append(('response Debug', render(m, resp, 'debug')))
             for lvl, text in m.log_records:
                 observables.append(('log %s' % lvl, text))
+            hm = [c_ for c_ in oracle_of(m).calls[n_before:] if c_.kind == 'hmac']
+            if o[0] == 'err' and hm:
+                # the signature the server computed for this refused request (semantic check in on_path: no observable may spell it out)
+                from mirse.model_misc import hex_encode_elems
+                observables.append(('__expected_signature', hex_encode_elems(hm[-1].out)))
             return observables, ('ok' if o[0] == 'ok' else o[1]), [l for l, _ in m.log_records]
         # ---- Debug / Display of public values built from a symbolic secret
         m.x_generics = {'M': Int('usize', 44)}
@@ -198,6 +225,25 @@ def run_shape(prog, shape, tier, seed, res):
         res.witnesses.add('outcome:' + str(oc))
         trace_run = kind == 'pipeline' and shape[3] == 'Trace'
         leaked_any = False
+        expected_sig = [e for l, e in observables if l == '__expected_signature']
+        observables = [(l, e) for l, e in observables if l != '__expected_signature']
+        if expected_sig and not trace_run:
+            # semantic leak: some 64-byte window of an observable CAN equal the signature the server computed for the refused request
+            # (catches texts derived from public input that coincide with the secret on this path, which symbol tracking cannot see)
+            exp = expected_sig[0]
+            for label, elems in observables:
+                if label.startswith('log Trace'):
+                    continue
+                res.obligations += 1
+                for off in range(0, len(elems) - 63):
+                    win = elems[off:off + 64]
+                    if not any(isinstance(e, Int) and e.sym for e in win):
+                        continue
+                    sat, model = ctx.satisfiable(zb(bytes_eq(win, exp)))
+                    if sat:
+                        res.findings.append(Finding('%s can spell out the signature the server computed for the refused request' % label,
+                                                    {'shape': list(shape), 'observable': label}, None, None, repr(shape)))
+                        break
         for label, elems in observables:
             res.obligations += 1
             sv = secret_vars_in(elems)
@@ -257,6 +303,22 @@ def native_observables(rp, carrier, oc, level):
     prog, _ = engine.load_program()
     engine.explore(prog, body, o.append)
     j, good_sig = o[0].value
+    if oc == 'sig-anycase':
+        # present the signature the native server will compute, in upper case (a wrong signature that differs only in letter case)
+        import hashlib
+        import hmac as pyhmac
+        hh = lambda k, msg: pyhmac.new(k, msg, hashlib.sha256).digest()
+        kg = hh(hh(hh(hh(b'AWS4' + AWS_SECRET.encode(), b'20150830'), b'us-east-1'), b'service'), b'aws4_request')
+        can = rp.ask({'op': 'canonical', 'request': j, 'options': {'s3': False, 'url_encode_form': False},
+                      'requirements': {'kind': 'slice', 'always': ['X-Req'], 'if_in': [], 'prefixes': []}})
+        sts_hex = can.get('ok', {}).get('authenticator', {}).get('ok', {}).get('string_to_sign_hex')
+        if sts_hex:
+            up = hh(kg, bytes.fromhex(sts_hex)).hex().upper()
+            if carrier == 'header':
+                j['headers'] = [[n, (bytes.fromhex(v).decode('latin-1').replace(good_sig, up).encode('latin-1').hex() if n == 'authorization' else v)]
+                                for n, v in j['headers']]
+            else:
+                j['uri'] = j['uri'].replace(good_sig, up)
     server = T0 + (1000 if oc == 'expired' else 0)
     prov = {'result': {'secret': AWS_SECRET}}
     if oc == 'provider-sig':
@@ -368,7 +430,7 @@ def conformance(prog, rp, seed, tier):
                 nlogs = [t for t in texts[2:]] if len(texts) >= 2 else texts
                 mine_logs = ['%s %s' % (lvl.upper(), t) for lvl, t in logs]
                 nat_logs = [' '.join(x.split(' ')[:1] + x.split(' ')[2:]) for x in nlogs]      # drop the target column
-                if oc not in ('ok', 'signature', 'sig-short', 'sig-long', 'sig-empty') and (msg != (texts[0] if texts else '') or mine_logs != nat_logs):
+                if oc not in ('ok', 'signature', 'sig-anycase', 'sig-short', 'sig-long', 'sig-empty') and (msg != (texts[0] if texts else '') or mine_logs != nat_logs):
                     mism.append({'case': [carrier, oc], 'mirse': [msg[:80], mine_logs], 'native': [texts[0][:80] if texts else None, nat_logs]})
     # renderings of the public value types (Debug / Display, plain and with the alternate flag) on a concrete secret
     nat = rp.ask({'op': 'fmt', 'secret': AWS_SECRET, 'date': [2015, 8, 30], 'region': 'r', 'service': 's'})
